@@ -275,6 +275,19 @@ def run_case(ck, desc):
     got2 = np.asarray(obj2.pvt_props["pseudopressure"], dtype=float)
     if not np.array_equal(got2, f * got):
         ck.violation("scales-with-mobility-factor", {"factor": f}, desc)
+    # ... over very many decades (a permeability / reference density folded into the three densities:
+    # 1e-19 for a shale in SI units): the SCALED pseudopressure does not see the factor at all
+    ms_ref = np.asarray(obj.pvt_props["m-scaled"], dtype=float)
+    for f_ in (2.0**-64, 1e-19, 1e-12, 1e12):
+        with warnings.catch_warnings(), np.errstate(all="ignore"):
+            warnings.simplefilter("ignore")
+            obj4 = fp.FlowPropertiesTwoPhase.from_table(arg, df_kr, {k: f_ * v for k, v in refd.items()}, desc["phi"], Sw, p_i)
+        ms4 = np.asarray(obj4.pvt_props["m-scaled"], dtype=float)
+        fin = np.isfinite(ms_ref)
+        dev = float(np.max(np.abs(ms4[fin] - ms_ref[fin]) / np.maximum(np.abs(ms_ref[fin]), 1e-300))) if np.all(np.isfinite(ms4[fin])) else np.inf
+        if not ck.margin("scaled pseudopressure independent of the mobility scale", dev, 1e-12) or abs(float(obj4.m_i) - float(obj.m_i)) > 1e-12:
+            ck.violation("scales-with-mobility-factor", {"factor": f_, "what": "scaled pseudopressure", "max_rel_dev": dev, "m_i": float(obj4.m_i)}, desc)
+    ck.count("mobility_scales_over_many_decades", 4)
     ck.count("table_cases")
     nontrivial = bool(np.sum(lam > 0) >= 5 and (np.ptp(lam) > 0 or desc["table"].get("family") == "constant"))
     return nontrivial, {"rows": len(P), "p_i": p_i, "m_scaled(p_f)": mf, "mobility_range": [lam.min(), lam.max()]}
